@@ -70,7 +70,7 @@ def gen_cases(ctx):
                 for strict in (True, False):
                     yield dict(part='reuse', first=first, second=second, outcome1=outcome1, strict=strict)
     for case in c07.gen_cases(ctx):
-        if tuple(case['pair']) == ('sync', 'sync') and case['idgen'] in ('sequential', 'randint12'):
+        if tuple(case['pair']) == ('sync', 'sync') and case.get('idgen') in ('sequential', 'randint12'):
             yield dict(part='notation', case=case)
     for how in ('call', 'notify', 'send', 'batch'):
         for dumper in (False, True):
